@@ -1,4 +1,10 @@
 import FcpptModel.Model.C01
+import FcpptModel.Spec.C01
+import FcpptModel.Model.C01.Env
+import FcpptProofs.C01.Stream
+import FcpptProofs.C01.Path
+import FcpptProofs.C01.Vector
+import FcpptProofs.Props.C01.Scalar
 import FcpptProofs.Props.C06.Basic
 import FcpptProofs.Props.C06.Arith
 import FcpptProofs.Props.C06.Log2
@@ -23,7 +29,11 @@ exception.  Part 1 are the container / string / argument helpers modelled in `Mo
 part 2 states totality of the *translated* scalar helpers (regenerated from /repo on every run)
 under exactly the guard "the exact result is representable" — each is a corollary of the C06
 correctness theorem for that instantiation, restated here in the `∃ r, f x = .ok r` form of C01
-for one representative width per function family plus the widths where a defect was repaired.
+for one representative width per function family plus the widths where a defect was repaired
+(`Props/C01/Scalar.lean` has every remaining instantiation).  Part 3: the io helpers on streams in
+every state (`Model/C01/Stream.lean`), part 4: the path helpers (`Model/C01/Path.lean`), part 5:
+helpers fed by the environment (`Model/C01/Env.lean`), part 6: the component-wise vector wrappers of the
+translated scalar helpers (`Model/C01/Vector.lean`).
 -/
 namespace Fcppt.C01
 open Fcppt
@@ -211,11 +221,58 @@ theorem nextArg_total (args : List Str) (names : List (Str × Bool)) :
             exact ih (cur + 1) (by omega) (by omega)
   exact this (args.length + 1) 0 (by omega) (by omega)
 
+theorem isFlag_eq_spec (s : Str) : isFlag s = .ok (isFlagSpec s) := by
+  rw [isFlag_spec]; unfold isFlagSpec; rfl
+
+theorem nextArgFrom_eq_spec (args : List Str) (names : List (Str × Bool)) :
+    ∀ fuel cur, cur ≤ args.length → args.length + 1 ≤ fuel + cur →
+      nextArgFrom args names fuel cur = .ok (nextArgSpec names (args.drop cur) cur) := by
+  intro fuel
+  induction fuel with
+  | zero => intro cur h1 h2; omega
+  | succ fuel ih =>
+    intro cur h1 h2
+    unfold nextArgFrom
+    by_cases hc : cur = args.length
+    · simp [hc, nextArgSpec]; rfl
+    · have hlt : cur < args.length := by omega
+      have hdrop : args.drop cur = args[cur] :: args.drop (cur + 1) := by
+        rw [List.drop_eq_getElem_cons hlt]
+      simp only [hc, ↓reduceIte, readAt_lt args cur hlt, hdrop, bind, Except.bind, isFlag_eq_spec]
+      unfold nextArgSpec
+      cases hf : isFlagSpec args[cur] with
+      | none => rfl
+      | some fl =>
+        obtain ⟨sh, nm⟩ := fl
+        simp only
+        by_cases hend : cur + 1 = args.length
+        · have hnil : args.drop (cur + 1) = [] := by simp [hend]
+          simp only [hend, ne_eq, not_true_eq_false, false_and, ↓reduceIte, hnil]
+          rw [ih args.length (by omega) (by omega)]
+          simp [nextArgSpec]
+        · have hlt2 : cur + 1 < args.length := by omega
+          have hdrop2 : args.drop (cur + 1) = args[cur + 1] :: args.drop (cur + 1 + 1) := by
+            rw [List.drop_eq_getElem_cons hlt2]
+          by_cases hn : names.contains (nm, sh) = true
+          · simp only [ne_eq, hend, not_false_eq_true, hn, and_self, ↓reduceIte, hdrop2]
+            exact ih (cur + 1 + 1) (by omega) (by omega)
+          · simp only [ne_eq, hend, not_false_eq_true, hn, and_false, ↓reduceIte, hdrop2, Bool.false_eq_true]
+            rw [ih (cur + 1) (by omega) (by omega), hdrop2]
+
+/-- next_arg IS its specification: the first argument that is neither a flag nor an option's value -/
+theorem nextArg_eq_spec (args : List Str) (names : List (Str × Bool)) :
+    nextArg args names = .ok (nextArgSpec names args 0) := by
+  unfold nextArg
+  simpa using nextArgFrom_eq_spec args names (args.length + 1) 0 (by omega) (by omega)
+
+example : nextArgSpec [("x".toList, true)] ["-x".toList, "v".toList, "--".toList, "a".toList] 0 = some 3 ∧
+    nextArgSpec [("x".toList, true)] ["-x".toList] 0 = none := by decide
+
 /-- read_chars hands over exactly the requested prefix or nothing; never more than was read -/
 theorem readChars_spec (stream : List Nat) (count : Nat) :
-    (readChars stream count = none ↔ stream.length < count) ∧
-    (∀ r, readChars stream count = some r → r.length = count ∧ r = stream.take count) := by
-  unfold readChars
+    (readCharsSpec stream count = none ↔ stream.length < count) ∧
+    (∀ r, readCharsSpec stream count = some r → r.length = count ∧ r = stream.take count) := by
+  unfold readCharsSpec
   by_cases h : count ≤ stream.length
   · simp [h] <;> omega
   · simp [h] <;> omega
@@ -291,5 +348,425 @@ theorem power_of_2_u32_total (e : Nat) (he : e < 32) : ∃ r, power_of_2_u32 e =
 /-- outside the guard the model shows the fault the C++ would have: shift by the full width, INT_MIN / -1 -/
 example : power_of_2_u32 32 = .error .shift ∧ ceil_div_signed_i32 (-2147483648) (-1) = .error .signedOverflow :=
   ⟨by rfl, by rfl⟩
+
+/-! ## Part 3: the io helpers on streams in every state -/
+
+/-- read_chars on a stream in ANY state (bits preset, streambuf that throws, short input) never writes outside
+the buffer it allocated, never hands over an uninitialised cell, and answers with exactly the requested
+characters or nothing -/
+theorem readChars_prefix_or_nothing (s : IStream) (count : Nat) :
+    readChars s count = .ok ((s.read count).1,
+      if s.good ∧ count ≤ s.buf.length then some (s.buf.take count) else none) := by
+  unfold readChars
+  rw [resize_from_empty]
+  by_cases hg : s.good = true
+  · by_cases hc : count ≤ s.buf.length
+    · have hr : s.read count = ({ s with buf := s.buf.drop count }, s.buf.take count, count) := by
+        simp [IStream.read, sentryNoskip, hg, hc]
+      have hw := writeCells_ok (s.buf.take count) [] (List.replicate count none) (by simp [hc])
+      have hgood : ({ s with buf := s.buf.drop count } : IStream).good = true := by simpa [IStream.good] using hg
+      have hlen : (s.buf.take count).length = count := by simp [hc]
+      simp only [List.nil_append, List.length_nil] at hw
+      simp only [hr, hw, Except.bind, hgood, ↓reduceIte, hg, hc, and_self, Buf.toRawVector, Nat.zero_add]
+      have hm := mapM_range_readCell (s.buf.take count) (List.drop (s.buf.take count).length (List.replicate count none)) count (by omega)
+      rw [hm]
+      simp [List.take_take, pure, Except.pure]
+    · have hlt : s.buf.length < count := by omega
+      have hw := writeCells_ok s.buf [] (List.replicate count none) (by simp; omega)
+      simp only [List.nil_append, List.length_nil] at hw
+      by_cases ht : s.throwsAtEnd = true
+      · have hr : s.read count = ({ s with buf := [], bad := true }, s.buf, 0) := by
+          simp [IStream.read, sentryNoskip, hg, hc, ht]
+        have hbad : ({ s with buf := [], bad := true } : IStream).good = false := by simp [IStream.good]
+        simp [hr, hw, Except.bind, hbad, hc, pure, Except.pure]
+      · have hr : s.read count = ({ s with buf := [], eof := true, fail := true }, s.buf, s.buf.length) := by
+          simp [IStream.read, sentryNoskip, hg, hc, ht]
+        have hbad : ({ s with buf := [], eof := true, fail := true } : IStream).good = false := by simp [IStream.good]
+        simp [hr, hw, Except.bind, hbad, hc, pure, Except.pure]
+  · have hr : s.read count = ({ s with fail := true }, [], 0) := by
+      simp [IStream.read, sentryNoskip, hg]
+    have hbad : ({ s with fail := true } : IStream).good = false := by simp [IStream.good]
+    simp [hr, writeCells, Except.bind, hbad, hg, pure, Except.pure]
+
+/-- read_chars is total; on a good stream it is the specification `readCharsSpec`, on any other stream nothing -/
+theorem readChars_total (s : IStream) (count : Nat) :
+    readChars s count = .ok ((s.read count).1, if s.good then readCharsSpec s.buf count else none) := by
+  rw [readChars_prefix_or_nothing]
+  unfold readCharsSpec
+  by_cases hg : s.good = true <;> by_cases hc : count ≤ s.buf.length <;> simp [hg, hc]
+
+/-- two consecutive reads continue where the first one stopped -/
+theorem readChars_twice (s : IStream) (a b : Nat) (hg : s.good = true) (h : a + b ≤ s.buf.length) :
+    ∃ s1 s2, readChars s a = .ok (s1, some (s.buf.take a)) ∧ readChars s1 b = .ok (s2, some ((s.buf.drop a).take b)) := by
+  have ha : a ≤ s.buf.length := by omega
+  have hr : s.read a = ({ s with buf := s.buf.drop a }, s.buf.take a, a) := by
+    simp [IStream.read, sentryNoskip, hg, ha]
+  have hg1 : ({ s with buf := s.buf.drop a } : IStream).good = true := by simpa [IStream.good] using hg
+  refine ⟨{ s with buf := s.buf.drop a }, (({ s with buf := s.buf.drop a } : IStream).read b).1, ?_, ?_⟩
+  · rw [readChars_prefix_or_nothing, hr]; simp [hg, ha]
+  · rw [readChars_prefix_or_nothing]
+    have hb : b ≤ (s.buf.drop a).length := by simp; omega
+    simp [hg1]; omega
+
+/-- stream_to_string never hands over a part of the content: everything the streambuf delivers, or nothing -/
+theorem streamToString_complete (s : IStream) (r : List Nat) (h : streamToString false s = some r) : r = s.buf := by
+  unfold streamToString insertStreambuf at h
+  simp only [Bool.false_eq_true, ↓reduceIte] at h
+  split at h
+  · cases h; rfl
+  · cases h
+
+/-- when it answers: the stream has not failed, and either it is empty or the streambuf did not throw -/
+theorem streamToString_some_iff (s : IStream) :
+    (streamToString false s).isSome ↔ (s.failed = false ∧ (s.buf = [] ∨ s.throwsAtEnd = false)) := by
+  unfold streamToString insertStreambuf
+  cases hf : s.failed <;> cases ht : s.throwsAtEnd <;> cases hb : s.buf <;> simp [OStream.good]
+
+theorem streamToString_nullbuf (s : IStream) (h : s.bad = true) : streamToString true s = none := by
+  simp [streamToString, IStream.failed, h]
+
+/-- io::peek does not consume, io::get consumes exactly the character it returns -/
+theorem ioPeek_keeps (s : IStream) : (ioPeek s).1.buf = s.buf := by
+  unfold ioPeek IStream.peek sentryNoskip
+  by_cases hg : s.good = true
+  · cases hb : s.buf <;> by_cases ht : s.throwsAtEnd = true <;> simp [hg, hb, ht]
+  · simp [hg]
+
+theorem ioGet_some (s s' : IStream) (c : Nat) (h : ioGet s = (s', some c)) :
+    s.good = true ∧ s.buf = c :: s'.buf ∧ s'.good = true := by
+  unfold ioGet IStream.get sentryNoskip at h
+  by_cases hg : s.good = true
+  · cases hb : s.buf with
+    | nil => by_cases ht : s.throwsAtEnd = true <;> simp [hg, hb, ht] at h
+    | cons x xs =>
+      simp [hg, hb] at h
+      obtain ⟨h1, h2⟩ := h
+      subst h1 h2
+      exact ⟨hg, rfl, by simpa [IStream.good] using hg⟩
+  · simp [hg] at h
+
+theorem ioGet_none_iff (s : IStream) : (ioGet s).2 = none ↔ (s.good = false ∨ s.buf = []) := by
+  unfold ioGet IStream.get sentryNoskip
+  by_cases hg : s.good = true
+  · cases hb : s.buf <;> by_cases ht : s.throwsAtEnd = true <;> simp [hg, hb, ht]
+  · simp [hg]
+
+/-- io::read<T>: a value exactly when the stream was good and held `sizeof(T)` characters; it consumes exactly those -/
+theorem ioRead_some_iff (size : Nat) (signed big : Bool) (s : IStream) :
+    ((ioRead size signed big s).2.isSome ↔ (s.good = true ∧ size ≤ s.buf.length)) ∧
+    ((ioRead size signed big s).2.isSome → (ioRead size signed big s).1.buf = s.buf.drop size) := by
+  unfold ioRead IStream.read sentryNoskip
+  by_cases hg : s.good = true
+  · have hnf : s.fail = false ∧ s.bad = false ∧ s.eof = false := by
+      simp [IStream.good] at hg; simp [hg]
+    by_cases hc : size ≤ s.buf.length
+    · simp [hg, hc, IStream.failed, hnf]
+    · by_cases ht : s.throwsAtEnd = true <;> simp [hg, hc, ht, IStream.failed, hnf]
+  · simp [hg, IStream.failed]
+
+/-- write_chars reports success exactly when the stream was good and the streambuf took everything; the stream never
+receives more than the data, and a stream that was not good receives nothing -/
+theorem writeChars_spec (o : OStream) (data : List Nat) :
+    ((writeChars o data).2 = true ↔ (o.good = true ∧ ∀ k, o.room = some k → data.length ≤ k)) ∧
+    (∃ n, n ≤ data.length ∧ (writeChars o data).1.content = o.content ++ data.take n) ∧
+    (o.good = false → (writeChars o data).1 = o) := by
+  by_cases hg : o.good = true
+  · have hflags : o.eof = false ∧ o.fail = false ∧ o.bad = false := by
+      simp [OStream.good] at hg; simp [hg]
+    cases hr : o.room with
+    | none =>
+      have hw : o.write data = { o with content := o.content ++ data } := by simp [OStream.write, hg, hr]
+      refine ⟨?_, ⟨data.length, Nat.le_refl _, ?_⟩, ?_⟩
+      · simp [writeChars, hw, OStream.good, hflags, hg]
+      · simp [writeChars, hw]
+      · intro h; simp [hg] at h
+    | some k =>
+      by_cases hk : data.length ≤ k
+      · have hw : o.write data = { o with content := o.content ++ data, room := some (k - data.length) } := by
+          simp [OStream.write, hg, hr, hk]
+        refine ⟨?_, ⟨data.length, Nat.le_refl _, ?_⟩, ?_⟩
+        · simp [writeChars, hw, OStream.good, hflags, hg, hk]
+        · simp [writeChars, hw]
+        · intro h; simp [hg] at h
+      · have hw : o.write data = { o with content := o.content ++ data.take k, room := some 0, bad := true } := by
+          simp [OStream.write, hg, hr, hk]
+        refine ⟨?_, ⟨k, by omega, ?_⟩, ?_⟩
+        · simp [writeChars, hw, OStream.good, hg, hk]
+        · simp [writeChars, hw]
+        · intro h; simp [hg] at h
+  · have hw : o.write data = o := by simp [OStream.write, hg]
+    refine ⟨?_, ⟨0, Nat.zero_le _, ?_⟩, ?_⟩
+    · simp [writeChars, hw, hg]
+    · simp [writeChars, hw]
+    · intro _; simp [writeChars, hw]
+
+example : readChars { buf := [1, 2, 3] } 2 = .ok ({ buf := [3] }, some [1, 2]) := by decide
+example : readChars { buf := [1, 2, 3], throwsAtEnd := true } 4 = .ok ({ buf := [], bad := true, throwsAtEnd := true }, none) := by decide
+example : readChars { buf := [1, 2, 3], eof := true } 0 = .ok ({ buf := [1, 2, 3], eof := true, fail := true }, none) := by decide
+/-- an `ifstream` opened on a directory (empty content, `underflow` throws): stream_to_string answers with the empty string -/
+example : streamToString false { buf := [], throwsAtEnd := true } = some [] := by decide
+example : streamToString false { buf := [1], throwsAtEnd := true } = none := by decide
+
+/-! ## Part 4: the path helpers -/
+section PathPart
+open Fcppt.C01.Path
+
+/-- extension_without_dot never reads `ret[0]` of an empty string, and removes exactly the leading dot -/
+theorem extensionWithoutDot_total (s : Path.Str) : extensionWithoutDot s = .ok ((extension s).drop 1) := by
+  unfold extensionWithoutDot
+  cases he : extension s with
+  | nil => simp [pure, Except.pure]
+  | cons c r =>
+    have hh := extension_head s (by simp [he])
+    rw [he] at hh
+    simp at hh
+    subst hh
+    simp [readAt, pure, Except.pure, bind, Except.bind]
+
+/-- stem and extension split the file name: nothing is lost and nothing is invented -/
+theorem stem_append_extension (s : Path.Str) (n : Path.Str) (h : (parse s).lastName = some n) :
+    stem s ++ extension s = n := by
+  unfold stem extension pathToString P.stem P.extension
+  cases hf : (parse s).findExtension with
+  | none =>
+    -- no string to look at, or an empty one
+    unfold P.findExtension at hf
+    simp only [h] at hf
+    split at hf
+    · rename_i h0; simp at h0; simp [h0]
+    · split at hf
+      · cases hf
+      · cases hr : rfindDot n <;> simp [hr] at hf
+  | some pr =>
+    obtain ⟨m, e⟩ := pr
+    have hm := findExtension_fst _ m e hf
+    rw [h] at hm
+    cases hm
+    cases e <;> simp
+
+/-- strip_prefix is total inside its documented precondition (the prefix has no more elements than the path) … -/
+theorem stripPrefix_total (pre s : Path.Str) (h : numSubpaths pre ≤ numSubpaths s) :
+    stripPrefix pre s = .ok (((parse s).elements.drop (numSubpaths pre)).foldl append []) := by
+  unfold stripPrefix
+  have : ¬ numSubpaths pre > (parse s).elements.length := by unfold numSubpaths at h ⊢; omega
+  simp [this, bind, Except.bind, pure, Except.pure, throw, throwThe, MonadExceptOf.throw]
+
+/-- … and outside of it `std::next` walks past `end()`: the function is rightly documented as unsafe there -/
+theorem stripPrefix_unsafe (pre s : Path.Str) (h : numSubpaths s < numSubpaths pre) :
+    stripPrefix pre s = .error .oob := by
+  unfold stripPrefix
+  have : numSubpaths pre > (parse s).elements.length := by unfold numSubpaths at h ⊢; omega
+  simp [this, bind, Except.bind, throw, throwThe, MonadExceptOf.throw]
+
+theorem stripPrefix_self (s : Path.Str) : stripPrefix s s = .ok [] := by
+  rw [stripPrefix_total s s (Nat.le_refl _)]
+  simp [numSubpaths]
+
+example : removeExtension "a//b.c".toList = "a/b".toList ∧ removeExtension "/b.c".toList = "/b".toList ∧
+    removeExtension "..".toList = "..".toList ∧ normalize "a/.".toList = "a/".toList ∧ numSubpaths "a//b/".toList = 3 := by decide
+example : stripPrefix "/a".toList "/a/b/".toList = .ok "b/".toList ∧ stripPrefix "a/b".toList "a".toList = .error .oob := by decide
+
+end PathPart
+
+/-! ## Part 5: helpers fed by the environment -/
+
+/-- fcppt::args reads exactly argv[0 .. argc) -/
+theorem args_total (argc : Int) (argv : List Str) (h0 : 0 ≤ argc) (h1 : argc.toNat ≤ argv.length) :
+    args argc argv = .ok (argv.take argc.toNat) := by
+  unfold args
+  have : ¬ argc < 0 := by omega
+  simp only [this, ↓reduceIte]
+  exact mapM_range_readAt argv _ h1
+
+/-- args_from_second: everything but the program name; `argc == 0` (no program name) gives the empty vector and
+never forms `argv + 1` / `argc - 1` -/
+theorem argsFromSecond_total (argc : Int) (argv : List Str) (h0 : 0 ≤ argc) (h1 : argc.toNat ≤ argv.length) :
+    argsFromSecond argc argv = .ok ((argv.take argc.toNat).drop 1) := by
+  unfold argsFromSecond
+  by_cases hz : argc = 0
+  · subst hz; simp; rfl
+  · simp only [hz, ↓reduceIte]
+    rw [args_total (argc - 1) (argv.drop 1) (by omega) (by simp; omega)]
+    congr 1
+    have : argc.toNat = (argc - 1).toNat + 1 := by omega
+    rw [this, List.drop_take]
+    simp
+
+/-- what the guard is for: without it the count would be negative -/
+example : args ((0 : Int) - 1) ([] : List Str) = .error .oob := by decide
+
+theorem getenv_some (env : List (Str × Str)) (name v : Str) (h : getenv env name = some v) :
+    ∃ n, (n, v) ∈ env ∧ n = name.takeWhile (· != '\x00') ∧ n ≠ [] ∧ ¬ n.contains '=' := by
+  unfold getenv at h
+  simp only at h
+  split at h
+  · cases h
+  · rename_i hc
+    simp only [Option.map_eq_some_iff] at h
+    obtain ⟨e, he, hv⟩ := h
+    have hmem := List.mem_of_find?_eq_some he
+    have hp := List.find?_some he
+    simp at hp
+    refine ⟨e.1, ?_, hp, ?_, ?_⟩
+    · rw [← hv]; exact hmem
+    · intro hn; rw [hp] at hn; simp [hn] at hc
+    · intro hn; rw [hp] at hn; simp at hc hn; exact hc.2 hn
+
+theorem createDirectory_none_iff (ec : Nat) : createDirectory ec = none ↔ ec = 0 := by
+  unfold createDirectory makeOptionalErrorCode; by_cases h : ec = 0 <;> simp [h]
+
+theorem makeRange_total {ρ} (ec : Nat) (r : ρ) :
+    (ec = 0 → makeRange ec r = .inr r) ∧ (ec ≠ 0 → makeRange ec r = .inl ec) := by
+  unfold makeRange makeOptionalErrorCode; by_cases h : ec = 0 <;> simp [h]
+
+/-- open_exn: the stream, or the documented fcppt::exception — nothing else -/
+theorem fsOpenExn_total (isOpen : Bool) :
+    (isOpen = true → fsOpenExn isOpen = .ok ()) ∧ (isOpen = false → fsOpenExn isOpen = .error (.exception (.other "fcppt"))) := by
+  cases isOpen <;> simp [fsOpenExn, fsOpen]
+
+/-- flag_name is a right inverse of is_flag: what it produces is recognised as that flag -/
+theorem isFlag_flagName_long (name : Str) : isFlag (flagName name false) = .ok (some (false, name)) := by
+  simp [flagName, isFlag, readAt, isDash, pure, Except.pure, bind, Except.bind]
+
+theorem isFlag_flagName_short (name : Str) (h : name.head? ≠ some '-') :
+    isFlag (flagName name true) = .ok (some (true, name)) := by
+  cases name with
+  | nil => simp [flagName, isFlag, readAt, isDash, pure, Except.pure, bind, Except.bind]
+  | cons c r =>
+    have hc : (c == '-') = false := by simpa using h
+    simp [flagName, isFlag, readAt, isDash, pure, Except.pure, bind, Except.bind, hc]
+
+/-- fcppt::system: an exit status (0…255) exactly for a command that exited; a command killed by a signal gives nothing -/
+theorem systemResult_spec (status : Nat) :
+    (status % 128 = 0 → ∃ v, systemResult status = some v ∧ v < 256) ∧ (status % 128 ≠ 0 → systemResult status = none) := by
+  unfold systemResult
+  by_cases h : status % 128 = 0
+  · simp only [h, ↓reduceIte]
+    exact ⟨fun _ => ⟨_, rfl, Nat.mod_lt _ (by decide)⟩, fun h' => absurd rfl h'⟩
+  · simp [h]
+
+/-- vector::atan2 answers unless BOTH components are zero; a NaN component is not a zero -/
+theorem vectorAtan2_none_iff (x y : FClass) : vectorAtan2 x y = none ↔ (x = .zero ∧ y = .zero) := by
+  unfold vectorAtan2; cases x <;> cases y <;> simp
+
+theorem weakLock_none_iff (owners : Nat) : weakLock owners = none ↔ owners = 0 := by
+  unfold weakLock; by_cases h : owners = 0 <;> simp [h]
+
+theorem dynamicCast_spec (dyn target : Cls) :
+    (dynamicCast dyn target = some dyn ↔ dyn.isA target = true) ∧ (dynamicCast dyn target = none ↔ dyn.isA target = false) := by
+  unfold dynamicCast; cases dyn.isA target <;> simp
+
+/-- gmtime / localtime: the broken-down time, or the documented std::runtime_error — nothing else -/
+theorem timeGmtime_total (answer : Option Tm) :
+    (∀ r, answer = some r → timeGmtime answer = .ok r) ∧
+    (answer = none → timeGmtime answer = .error (.exception (.other "runtime_error"))) := by
+  cases answer <;> simp [timeGmtime]
+
+example : argsFromSecond 3 ["p".toList, "a".toList, "b".toList] = .ok ["a".toList, "b".toList] ∧ argsFromSecond 0 [] = .ok [] := by decide
+example : (gmtimeR 951782400 = some ⟨2000, 2, 29, 0, 0, 0⟩) ∧ gmtimeR 67768036191676800 = none ∧ gmtimeR (-1) = some ⟨1969, 12, 31, 23, 59, 59⟩ := by decide
+example : dynamicCast .m .iface = some .m ∧ dynamicCast .d3 .d1 = some .d3 ∧ dynamicCast .d1 .d3 = none := by decide
+
+/-! ## Part 6: math::vector — component-wise wrappers of the translated scalar helpers, all or nothing -/
+
+/-- vector / scalar (int32): total whenever every exact quotient is representable; nothing iff the divisor is zero -/
+theorem vdiv_i32_total (v : List Int) (d : Int) (hv : ∀ x ∈ v, IntTy.i32.InRange x) (hd : IntTy.i32.InRange d)
+    (hr : d ≠ 0 → ∀ x ∈ v, IntTy.i32.InRange (Int.tdiv x d)) :
+    vdiv_i32 v d = .ok (sequenceOpt (v.map fun x => if d = 0 then none else some (Int.tdiv x d))) := by
+  unfold vdiv_i32
+  apply vectorMap_ok
+  intro x hx
+  by_cases h : d = 0
+  · subst h; simp [div_i32_zero]
+  · simp [h, div_i32_correct x d (hv x hx) hd h (hr h x hx)]
+
+theorem vdiv_u32_total (v : List Int) (d : Int) (hv : ∀ x ∈ v, IntTy.u32.InRange x) (hd : IntTy.u32.InRange d) :
+    vdiv_u32 v d = .ok (sequenceOpt (v.map fun x => if d = 0 then none else some (Int.tdiv x d))) := by
+  unfold vdiv_u32
+  apply vectorMap_ok
+  intro x hx
+  by_cases h : d = 0
+  · subst h; simp [div_u32_zero]
+  · simp [h, div_u32_correct x d (hv x hx) hd h (u32_tdiv_inRange x d (hv x hx) hd h)]
+
+theorem vmod_u32_total (v : List Int) (d : Int) (hv : ∀ x ∈ v, IntTy.u32.InRange x) (hd : IntTy.u32.InRange d) :
+    vmod_u32 v d = .ok (sequenceOpt (v.map fun x => if d = 0 then none else some (x % d))) := by
+  unfold vmod_u32
+  apply vectorMap_ok
+  intro x hx
+  by_cases h : d = 0
+  · subst h; simp [mod_u32_zero]
+  · simp [h, mod_u32_correct x d (hv x hx) hd h]
+
+/-- vector / vector: component by component, nothing iff SOME divisor component is zero -/
+theorem vdivv_i32_total (l r : List Int) (hl : ∀ x ∈ l, IntTy.i32.InRange x) (hr : ∀ y ∈ r, IntTy.i32.InRange y)
+    (hq : ∀ p ∈ l.zip r, p.2 ≠ 0 → IntTy.i32.InRange (Int.tdiv p.1 p.2)) :
+    vdivv_i32 l r = .ok (sequenceOpt ((l.zip r).map fun p => if p.2 = 0 then none else some (Int.tdiv p.1 p.2))) := by
+  unfold vdivv_i32
+  apply vectorZip_ok (g := fun a b => if b = 0 then none else some (Int.tdiv a b))
+  intro p hp
+  have h1 := hl p.1 (List.of_mem_zip hp).1
+  have h2 := hr p.2 (List.of_mem_zip hp).2
+  by_cases h : p.2 = 0
+  · simp [h, div_i32_zero]
+  · simp [h, div_i32_correct p.1 p.2 h1 h2 h (hq p hp h)]
+
+theorem vmodv_u32_total (l r : List Int) (hl : ∀ x ∈ l, IntTy.u32.InRange x) (hr : ∀ y ∈ r, IntTy.u32.InRange y) :
+    vmodv_u32 l r = .ok (sequenceOpt ((l.zip r).map fun p => if p.2 = 0 then none else some (p.1 % p.2))) := by
+  unfold vmodv_u32
+  apply vectorZip_ok (g := fun a b => if b = 0 then none else some (a % b))
+  intro p hp
+  have h1 := hl p.1 (List.of_mem_zip hp).1
+  have h2 := hr p.2 (List.of_mem_zip hp).2
+  by_cases h : p.2 = 0
+  · simp [h, mod_u32_zero]
+  · simp [h, mod_u32_correct p.1 p.2 h1 h2 h]
+
+/-- ceil_div_signed on a vector: total whenever every exact ceiling is representable; every component is the ceiling -/
+theorem vceildiv_i32_total (v : List Int) (d : Int) (hv : ∀ x ∈ v, IntTy.i32.InRange x) (hd : IntTy.i32.InRange d)
+    (hrep : ∀ x ∈ v, ∀ q, IsCeilDiv x d q → IntTy.i32.InRange q) :
+    ∃ r, vceildiv_i32 v d = .ok r ∧
+      (d = 0 → v ≠ [] → r = none) ∧
+      (d ≠ 0 → ∃ qs, r = some qs ∧ qs.length = v.length ∧ ∀ i (h1 : i < v.length) (h2 : i < qs.length), IsCeilDiv v[i] d qs[i]) := by
+  unfold vceildiv_i32
+  by_cases h : d = 0
+  · subst h
+    rw [vectorMap_ok (g := fun _ => none) v (fun x _ => ceil_div_signed_i32_zero x)]
+    refine ⟨_, rfl, ?_, fun h => absurd rfl h⟩
+    intro _ hne
+    rw [sequenceOpt_eq_none_iff]
+    cases v with
+    | nil => exact absurd rfl hne
+    | cons x r => simp
+  · -- choose the quotient of every component
+    have hex : ∀ x ∈ v, ∃ q, ceil_div_signed_i32 x d = .ok (some q) ∧ IsCeilDiv x d q :=
+      fun x hx => ceil_div_signed_i32_correct x d (hv x hx) hd h (hrep x hx)
+    have key : ∀ (w : List Int), (∀ x ∈ w, ∃ q, ceil_div_signed_i32 x d = .ok (some q) ∧ IsCeilDiv x d q) →
+        ∃ qs : List Int, w.mapM (fun x => ceil_div_signed_i32 x d) = .ok (qs.map some) ∧ qs.length = w.length ∧
+          ∀ i (h1 : i < w.length) (h2 : i < qs.length), IsCeilDiv w[i] d qs[i] := by
+      intro w
+      induction w with
+      | nil => intro _; exact ⟨[], rfl, rfl, fun i h1 _ => absurd h1 (by simp)⟩
+      | cons x t ih =>
+        intro hw
+        obtain ⟨q, hq, hc⟩ := hw x (by simp)
+        obtain ⟨qs, hqs, hlen, hall⟩ := ih (fun y hy => hw y (by simp [hy]))
+        refine ⟨q :: qs, ?_, by simp [hlen], ?_⟩
+        · simp only [List.mapM_cons, hq, hqs, bind, Except.bind, List.map_cons]; rfl
+        · intro i h1 h2
+          cases i with
+          | zero => simpa using hc
+          | succ j => simpa using hall j (by simpa using h1) (by simpa using h2)
+    obtain ⟨qs, hqs, hlen, hall⟩ := key v hex
+    refine ⟨some qs, ?_, fun h0 => absurd h0 h, fun _ => ⟨qs, rfl, hlen, hall⟩⟩
+    unfold vectorMap
+    rw [hqs]
+    show Except.ok (sequenceOpt (qs.map some)) = _
+    rw [sequenceOpt_map_some]
+
+
+example : vdiv_i32 [7, -7, 2147483647] 2 = .ok (some [3, -3, 1073741823]) ∧ vdiv_i32 [1, 2] 0 = .ok none ∧
+    vdivv_i32 [4, 5] [2, 0] = .ok none ∧ vceildiv_i32 [5, -5] 2 = .ok (some [3, -2]) := by decide
+/-- outside the guard the component's fault is the vector's: INT_MIN / -1 -/
+example : vdiv_i32 [1, -2147483648] (-1) = .error .signedOverflow := by decide
 
 end Fcppt.C01
